@@ -219,7 +219,7 @@ pub fn decode_op(u: &mut Unstructured, kind: Kind, uni: u32, dom: u8, leaks: boo
 pub fn decode_case(data: &[u8], faults: bool, leaks: bool) -> Result<Case> {
     let mut u = Unstructured::new(data);
     let kind = if u.arbitrary::<bool>()? { Kind::DPQ } else { Kind::PQ };
-    let hasher = *u.choose(&[HasherKind::Fixed, HasherKind::Random, HasherKind::Xx, HasherKind::Keyed, HasherKind::Colliding, HasherKind::Coarse])?;
+    let hasher = *u.choose(&[HasherKind::Fixed, HasherKind::Random, HasherKind::Xx, HasherKind::Keyed, HasherKind::Colliding, HasherKind::Coarse, HasherKind::OneShot])?;
     let universe = *u.choose(&[4u32, 12, 64, 1024])?;
     let dom = u.int_in_range(0u8..=3)?;
     let how = match u.int_in_range(0u8..=10)? {
